@@ -128,6 +128,36 @@ def run_confusion(spec, rec, lib):
                                                            "%d.%d.%d" % (rng.randrange(1, 10**6), rng.randrange(100), rng.randrange(100)),
                                                            "0.6.%d" % rng.randrange(1, 10**9), "0.%d.0" % rng.randrange(7, 10**9)])
         rec.hist("confusion_shape", shape)
+        if i % 3 == 0 and isinstance(usigned.get("version", 1), int):
+            # history: a LOOK-ALIKE is offered first - same type, version, dates and specification version as the genuine document
+            # (a version number this process has not met), but not well-formed delegating metadata (or simply other delegations); it
+            # is refused or not, that does not matter.  Whatever was concluded about the look-alike says nothing about the genuine
+            # document, which follows in the loop below and must still be refused for role Y
+            if "version" in usigned:
+                usigned["version"] = rng.randrange(10**6, 10**9)
+            look = copy.deepcopy(usigned)
+            how_l = ["threshold_0", "upper_key", "no_delegations_member", "delegations_list", "extra_member_in_delegation", "other_delegations"][(i // 3) % 6]
+            first = next(iter(look.get("delegations") or {"x": 0}))
+            if how_l == "threshold_0" and look.get("delegations"):
+                look["delegations"][first]["threshold"] = 0
+            elif how_l == "upper_key" and look.get("delegations") and look["delegations"][first]["pubkeys"]:
+                look["delegations"][first]["pubkeys"][0] = look["delegations"][first]["pubkeys"][0].upper()
+            elif how_l == "no_delegations_member":
+                look.pop("delegations", None)
+            elif how_l == "delegations_list":
+                look["delegations"] = [Y]
+            elif how_l == "extra_member_in_delegation" and look.get("delegations"):
+                look["delegations"][first]["name"] = first
+            else:
+                look["delegations"] = {"zzz": gmd.delegation(U[4:5], 1)}
+            lenv = gmd.envelope(look)
+            if rng.random() < 0.5:
+                gmd.sign_env(lenv, ks, gpg, rng)
+            for role_l in (Y, X):
+                o_l = boundary.call(lib, A.verify_delegation, role_l, copy.deepcopy(lenv), copy.deepcopy(trusted), gpg=gpg)
+                if not o_l.accepted and o_l.family not in boundary.DOCUMENTED:
+                    rec.violation(boundary.mechanism("undocumented-error", "verify_delegation[look-alike]", "documented-family", o_l), "look-alike offer", {"kind": "lookalike"})
+            rec.count("lookalike_offered_before_the_genuine_document")
         untrusted = gmd.envelope(usigned)
         data = canonjson.canon(usigned)
         gmd.sign_env(untrusted, ks, gpg, rng)
